@@ -37,6 +37,9 @@ def ref_reactions(case, meta):
     """list of (reactant names, product names) in rate-index order, pseudo dropped"""
     if case.ref == "fed" and case.spec.get("reactions") is not None:
         src = [(r["reactants"], r["products"]) for r in case.spec["reactions"]]
+    elif case.ref == "fed" and getattr(case, "fed_lines", None) is not None:
+        # files written by the corpus itself: the reference is what was written, in file order
+        src = [(r["reactants"], r["products"]) for r in case.fed_lines]
     else:
         src = [(r["reactants"], r["products"]) for r in meta["reactions"]]
     out = []
